@@ -357,3 +357,27 @@ PROPS["C08"] = {
     ],
     "min_nontrivial": {"quick": 20000, "thorough": 100000},
 }
+
+PROPS["C09"] = {
+    "level": "exploration",
+    "design_ref": "DESIGN.md §4.9",
+    "technique": "rapid-generated aggregate SELECTs over stores with colliding group tuples; independent reference fold (partition by tuple equality, per-group definitions of count/sum/min/max/avg/group_concat/json_arrayagg, arithmetic around aggregates)",
+    "level_text": "Randomised exploration with an exact oracle: aggregate statements with 0-3 GROUP BY expressions (key, value, upper/lower/str/strlen/int of them, "
+                  "bare or named), 1-3 aggregate fields with arithmetic around them and a WHERE that rejects some pairs are executed in both modes at "
+                  "batch sizes {1,3,32}; the reference evaluates WHERE, group expressions and aggregate arguments on every pair in key order, partitions by "
+                  "tuple equality (value and kind), emits groups in order of their first pair and computes every aggregate by its definition in scan order. "
+                  "Engine rows must match row for row. A dedicated leg builds stores and tuples whose plain concatenations collide "
+                  "(('a','bc') vs ('ab','c'), ('1','1x') vs ('11','x')).",
+    "level_note": "Group columns are compared by content with the engine's textual rendering of an integer accepted as the integer; json_arrayagg is compared "
+                  "structurally. Mixed int/float aggregate arguments, float group values and non-UTF-8 text under json_arrayagg are outside the domain. "
+                  "Every non-aggregate select field is one of the GROUP BY expressions.",
+    "rule": "rapid legs TestC09 (general) and TestC09Collide. Non-trivial = at least 2 groups and (a group with at least 2 pairs, or two distinct group "
+            "tuples with equal concatenation); distinct = distinct (query, store, batch size).",
+    "assumptions": COMMON_ASSUMPTIONS,
+    "legs": [
+        {"test": "TestC09", "kind": "rapid", "quick": {"checks": 5000, "shards": 3, "shrink": "15s"}, "thorough": {"checks": 120000, "shards": 10}},
+        {"test": "TestC09Collide", "kind": "rapid", "quick": {"checks": 3000, "shards": 2, "shrink": "15s"}, "thorough": {"checks": 80000, "shards": 6}},
+    ],
+    "min_nontrivial": {"quick": 2000, "thorough": 30000},
+    "min_labels": {"colliding-tuples": 500},
+}
